@@ -45,3 +45,127 @@ pub fn unary<T: Subj>(tier: Tier) -> Plan<T> {
         .with_aux(Aux::BitIdx, (0..bits as u64).collect())
         .with_aux(Aux::SetBit, (0..bits as u64).flat_map(|i| [i, i | (1 << 32)]).collect())
 }
+
+use refmodel::BigRef;
+
+fn big(v: i128) -> BigRef {
+    BigRef::from_i128(v)
+}
+
+/// bit indices: all below 512 bits, digit-boundary neighbourhoods beyond
+pub fn bit_indices(bits: u32, w: u32, tier: Tier) -> Vec<u64> {
+    let mut v: Vec<u64> = Vec::new();
+    if bits <= 512 || (tier == Tier::Thorough && bits <= 1024) {
+        v.extend(0..bits as u64);
+    } else {
+        for k in 0..(bits / w) as u64 {
+            for o in [0u64, 1, (w / 2) as u64, w as u64 - 2, w as u64 - 1] {
+                v.push(k * w as u64 + o);
+            }
+        }
+    }
+    v.sort();
+    v.dedup();
+    v
+}
+
+/// C06 plan: unary plan with bounded bit-index domains and the depth-2 set_bit sequences
+pub fn bits_plan<T: Subj>(tier: Tier) -> Plan<T> {
+    let (w, bits) = (T::DIGIT_BITS, T::BITS);
+    let idx = bit_indices(bits, w, tier);
+    let setbit: Vec<u64> = idx.iter().flat_map(|i| [*i, *i | (1 << 32)]).collect();
+    // two consecutive set_bit calls: aux = i1 | v1<<16 | i2<<17 | v2<<33 (8- and 16-bit types only)
+    let mut seq2: Vec<u64> = Vec::new();
+    if bits <= 16 {
+        for i1 in 0..bits as u64 {
+            for v1 in 0..2u64 {
+                for i2 in 0..bits as u64 {
+                    for v2 in 0..2u64 {
+                        seq2.push(i1 | (v1 << 16) | (i2 << 17) | (v2 << 33));
+                    }
+                }
+            }
+        }
+    }
+    unary::<T>(tier).with_aux(Aux::BitIdx, idx).with_aux(Aux::SetBit, setbit).with_aux(Aux::Custom, seq2)
+}
+
+/// values around the exact j-th roots of 2^BITS and 2^(BITS-1) (so that a^e lands just below / at /
+/// above the range bounds, and exactly on MIN for signed types)
+pub fn root_values(bits: u32, signed: bool) -> Vec<Vec<u8>> {
+    let nb = (bits / 8) as usize;
+    let mut out = Vec::new();
+    for top in [bits as u64, bits as u64 - 1] {
+        let bound = BigRef::pow2(top);
+        for j in 2..=8u64 {
+            let r = bound.nth_root_floor(j);
+            for d in -1..=1i128 {
+                let v = r.add(&big(d));
+                out.push(v.to_le_bytes_wrapped(nb));
+                if signed {
+                    out.push(v.neg().to_le_bytes_wrapped(nb));
+                }
+            }
+        }
+    }
+    sets::dedup(out)
+}
+
+/// log bases
+pub fn log_bases(bits: u32, w: u32) -> Vec<BigRef> {
+    let mut v: Vec<BigRef> = [0i128, 1, 2, 3, 4, 5, 7, 8, 10, 16, 100, 255, 256, 1000].iter().map(|x| big(*x)).collect();
+    for k in [w as u64, (bits / 2) as u64, bits as u64 - 1] {
+        let p = BigRef::pow2(k);
+        v.push(p.sub(&big(1)));
+        v.push(p.clone());
+        v.push(p.add(&big(1)));
+    }
+    v
+}
+
+/// C08 plan. r0: FULL (<= 16 bits) or boundary sets plus roots of the range and b^k - 1, b^k, b^k + 1;
+/// r1 (log base): FULL at 8 bits, the base list otherwise.
+pub fn pow_plan<T: Subj>(tier: Tier) -> Plan<T> {
+    let (w, n, bits) = (T::DIGIT_BITS, T::N, T::BITS);
+    let nb = T::bytes();
+    let max = if T::SIGNED { BigRef::pow2(bits as u64 - 1).sub(&big(1)) } else { BigRef::pow2(bits as u64).sub(&big(1)) };
+    let bases = log_bases(bits, w);
+    let fits = |x: &BigRef| !x.is_neg() && x <= &max;
+    let (label, a) = if bits <= 16 {
+        ("FULL x bases/exponents", sets::full(bits))
+    } else {
+        let mut a = sets::structured(w, n, tier);
+        a.extend(root_values(bits, T::SIGNED));
+        for b in &bases {
+            if b < &big(2) || !fits(b) {
+                continue;
+            }
+            let mut p = b.clone();
+            let mut k = 0;
+            while fits(&p) && k < 9000 {
+                for d in -1..=1i128 {
+                    let x = p.add(&big(d));
+                    if fits(&x) {
+                        a.push(x.to_le_bytes_wrapped(nb));
+                    }
+                }
+                p = p.mul(b);
+                k += 1;
+            }
+        }
+        ("GRID + roots + powers x bases/exponents", sets::dedup(a))
+    };
+    let b: Vec<Vec<u8>> = if bits == 8 {
+        sets::full(8)
+    } else {
+        let mut b: Vec<Vec<u8>> = bases.iter().filter(|x| fits(x)).map(|x| x.to_le_bytes_wrapped(nb)).collect();
+        if T::SIGNED {
+            b.push(big(-1).to_le_bytes_wrapped(nb));
+            b.push(big(-2).to_le_bytes_wrapped(nb));
+            b.push(BigRef::pow2(bits as u64 - 1).to_le_bytes_wrapped(nb));
+        }
+        b.extend(sets::structured_small(w, n, Tier::Quick).into_iter().take(40));
+        sets::dedup(b)
+    };
+    Plan::new(label, &a, &b, &[]).with_aux(Aux::Exp, sets::exponents(bits, tier))
+}
